@@ -82,6 +82,9 @@ func c13VersionText(sc c13Scenario, m c13Msg) string {
 		return " \n\n"
 	case "first":
 		return c13Text(m.Doc*2, sc.Include)
+	case "second":
+		// the text of version 1 again (an edit that changes nothing)
+		return c13Text(m.Doc*2+1, sc.Include)
 	case "declA":
 		// one of the two accounts declared: one warning
 		return "account a:one\n\n2001-01-01 d\n    a:one  1 USD\n    a:two  -1 USD\n"
@@ -240,6 +243,8 @@ func c13Scenarios(thorough bool) []c13Scenario {
 	out = append(out,
 		// the text returns to one whose diagnostics were already published
 		c13Scenario{Name: "text-comes-back-after-publication", Msgs: []c13Msg{{Doc: 0, Version: 0}, {Special: "drain"}, {Doc: 0, Version: 1}, {Doc: 0, Version: 2, Special: "first"}}, Bound: sb},
+		// an edit that leaves the text as it is, while the analysis of that text may still be running
+		c13Scenario{Name: "same-text-twice", Msgs: []c13Msg{{Doc: 0, Version: 0}, {Special: "drain"}, {Doc: 0, Version: 1}, {Doc: 0, Version: 2, Special: "second"}}, Bound: sb},
 		// workspace: the declarations of the document change from version to version
 		c13Scenario{Name: "ws-declarations-change", Workspace: true, Msgs: []c13Msg{{Doc: 0, Version: 0, Special: "declA"}, {Doc: 0, Version: 1, Special: "declB"}, {Doc: 0, Version: 2, Special: "declC"}}, Bound: sb},
 		c13Scenario{Name: "ws-declarations-come-back", Workspace: true, Msgs: []c13Msg{{Doc: 0, Version: 0, Special: "declA"}, {Special: "drain"}, {Doc: 0, Version: 1, Special: "declB"}, {Doc: 0, Version: 2, Special: "declA"}}, Bound: sb},
